@@ -6,8 +6,9 @@ OUT=${1:-selftest/matrix.tsv}
 : > $OUT
 run() { # name patch prop
   D=$(mktemp -d /tmp/vmatrix.XXXXXX)
+  P=$(realpath "$2")
   cp -r /repo/src $D/src
-  if ( cd $D && patch -s -p1 < "$2" ); then
+  if ( cd $D && patch -s -p1 < "$P" ); then
     ./vcheck $3 --src $D/src --evidence $D/ev.json --no-validate > $D/log 2>&1; rc=$?
     why=$(grep -E "^(INCONCLUSIVE|UNCONFIRMED)" $D/log | head -1 | cut -c1-160)
     printf '%s\t%s\t%s\t%s\n' "$1" "$3" "$rc" "$why" >> $OUT
